@@ -31,6 +31,16 @@ CHECKS = {
          "For each stored tree every read endpoint is queried (exhaustively for trees of <=12 headers: every hash, every ordered ancestors pair, every multiset <=3 for common ancestor, every height window) and compared with what the stored tree implies under the weakest reading of the statement; the headers table digest must not change across reads.",
          "Trusted: reference model; queries crossing a late-stored parent link are skipped; degenerate arguments (empty lists, genesis) are left to C16; SQLite only.",
          "DESIGN.md §5 C04"),
+ "C08": ("exploration",
+         "runtime monitoring: complete page walks through the real GET /chain/merkleroot handler for every batch size on generated stores, compared with the reference model's longest chain; start-key and interleaved-ingestion walks",
+         "For every generated store (forks, stale siblings at listed heights, orphans) the listing is walked to the end for every batch size 1..n+2 and must yield exactly the longest chain's (root,height) list in ascending order with pages <= batch size; every stored root is tried as start key (stale/orphan => 409, unknown => 404), and walks are interleaved with tip extensions.",
+         "Trusted: reference model; merkle roots pairwise distinct; interleaved ingestion only extends the tip; SQLite only.",
+         "DESIGN.md §5 C08"),
+ "C13": ("exploration",
+         "runtime monitoring: reference-model oracle for locator shape and getheaders answers against the real HeaderService on the real SQLite stack, incl. 2100/5000-header chains with stale branches at locator heights",
+         "LatestHeaderLocator is checked after every extension of a growing chain and on every generated store (tip first, longest-chain hashes only, strictly descending, single steps then doubling, genesis last); tens of thousands of getheaders queries (locators mixing longest/stale/orphan/unknown hashes in any order, every class of stop hash) are compared header-by-header with the statement's answer, through both LocateHeaders and LocateHeadersGetHeaders.",
+         "Trusted: reference model; number of single locator steps not fixed by the statement (any accepted); a stop hash that is not on the longest chain is read as 'no stop'; SQLite only.",
+         "DESIGN.md §5 C13"),
 }
 
 NOT_YET = "check not built yet in this session (work in progress; design in DESIGN.md §5)"
